@@ -235,6 +235,12 @@ def specs_for(tier, seed):
                         MOL1[j % len(MOL1)], m2))
     for j, (g, a, b2) in enumerate(pts):
         specs.append({"grid": g, "m1": a, "m2": b2, "kind": "pt", "cartesian": bool(j % 2), "outliers": False})
+    # one long trajectory (more frames than any internal block size, and not a multiple of a round number): the assignment
+    # must be per frame whatever the trajectory length
+    base = next((sp for sp in specs if sp["kind"] == "random" and sp["m2"] in ("HOCL", "CHFCLBR", "H2O") and sp["grid"][0] not in ("1", "zero4D_1")), None)
+    if base is not None:
+        long_spec = dict(base, M=2311 if tier == "quick" else 4523, seed=[seed, 11, 9999])
+        specs.append(long_spec)
     specs.extend(WITNESSES)
     return specs
 
